@@ -1,5 +1,6 @@
 import GrmVerif.Lemmas.Search
 import GrmVerif.Lemmas.RankImpl2
+import GrmVerif.Lemmas.RankImplO
 import GrmVerif.Model.SearchImpl
 /-!
 Specification-level relations for the proof that the modelled search (`Model/SearchImpl.lean`) is
